@@ -12,7 +12,7 @@ import (
 
 func init() {
 	register(&Property{
-		ID: "C08",
+		ID:          "C08",
 		Explanation: "Decided for all paths: every future received from applyCh (follower, candidate, leader ×2) is either answered without being dispatched (ErrNotLeader / ErrLeadershipTransferInProgress) or handed to dispatchLogs, never both; ApplyLog/Barrier return ErrEnqueueTimeout/ErrRaftShutdown only from select cases other than the send and the future only from the send case; dispatchLogs gives every future index and term, parks it in the in-flight list, then stores, answers all with the error on failure and triggers replication on success; the in-flight list is drained only by the commit arm (entries <= commit index, after processLogs), the step-down exit (ErrLeadershipLost to all) and user restore (ErrAbortedByRestore); in the FSM goroutine a future's Response is the result of Apply on that very entry (single path) and, for batches, send list and response cursor are driven by the same predicate with a length check that panics; Barrier entries travel through the FSM queue (prepareLog yields a tuple), entries that yield no tuple are answered by processLogs; Index() returns the index dispatchLogs assigned.",
 		NotDecided:  "cluster-wide at-most-once application and real-time ordering between calls (histories), and that ErrLeadershipLost futures were not committed (they may be – the property allows that).",
 		RuleText:    "C08.R1 per-arm outcome automaton on applyCh; R2 select-arm/return pairing in ApplyLog/Barrier; R3 must-precede chain in dispatchLogs; R4 drain-site table of the in-flight list; R5 response pairing in runFSM closures; R6 = C02.R7; R7 Index() accessor.",
